@@ -213,7 +213,10 @@ def well_kinded_pairs():
 
 def features(layers):
     """Coverage features of a stack: adjacent kind pairs plus (kind, N!=M) and scalar variety."""
-    f = set(("pair",) + p for p in adjacent_pairs(layers))
+    # an adjacent pair counts as covered only where its effect is observable: a constant backend ignores the
+    # coordinate it is given, so pairs above it (other than the pair with the constant itself) do not count
+    observable = layers[-1]["kind"] != "constant"
+    f = set(("pair",) + p for p in adjacent_pairs(layers) if observable or p[1] == "constant")
     top = layers[0]
     for l in layers:
         f.add(("kind", l["kind"], "N!=M" if top["N"] != top["M"] else "N==M"))
